@@ -27,9 +27,10 @@ static std::string runOp(const vh::Case& c) {
 	if (!fn) return vh::JObj().str("id", c.get("id")).str("error", "unknown op").done();
 	using M = vh::AllocMeter;
 	bool meter = c.geti("meter", 0) != 0 || c.has("failalloc");
-	if (meter) { M::reset(); M::hard_limit = (long long)c.getu("hardlimit", 1ull << 31); M::fail_at = (long long)c.getu("failalloc", 0); M::enabled = true; }
+	if (meter) { M::reset(); M::hard_limit = (long long)c.getu("hardlimit", 1ull << 31); doc::MeterScope::wanted() = true; doc::MeterScope::pendingFailAt() = (long long)c.getu("failalloc", 0); }
 	std::string out = fn(r);
 	if (meter) {
+		doc::MeterScope::wanted() = false;
 		M::enabled = false;
 		M::fail_at = 0;
 		// append the meter to the JSON object
